@@ -20,7 +20,7 @@ CFGS = [
     {"mem": "art", "vlog": True, "buckets": 3, "vlogsize": 4096, "vallen": 200},
     {"mem": "skiplist", "vlog": True, "buckets": 3, "vlogsize": 1 << 20, "vallen": 64},
     {"mem": "art", "vlog": True, "buckets": 1, "vlogsize": 1 << 20, "vallen": 33},
-    {"mem": "skiplist", "vlog": True, "buckets": 4, "hot": 2, "vlogsize": 2048, "vallen": 100},   # keys move from cold to hot buckets
+    {"mem": "skiplist", "vlog": True, "buckets": 4, "hot": 2, "vlogsize": 256, "vallen": 100},    # keys move from cold to hot buckets; a file per 2 records
     {"mem": "art", "vlog": True, "buckets": 3, "vlogsize": 512, "vallen": 200},        # a new value-log file every 2-3 records
     {"mem": "skiplist", "vlog": True, "buckets": 1, "vlogsize": 512, "vallen": 300},   # a new value-log file every record or two
 ]
@@ -499,6 +499,8 @@ def run(ctx):
         ctx.log("M2: layout cover: %d signatures from %d distinct states" % (ncover, cov.distinct))
         # transition cover on top of the layout cover: every covered layout followed by one more
         # maintenance action (the driver reports "nofill"/"noop" where the action does not apply)
+        if pid == "C08":   # value-log GC after every covered layout (the cover model itself has no GC action)
+            cover = [h + [{"op": "Rotate"}, {"op": "GC"}] for h in cover]
         ext = [h + [{"op": a}] for h in cover for a in ("MoveL0", "IngestMerge", "IngestDrain", "CompactL1", "Reopen", "Flush", "Rotate")
                if not h or h[-1]["op"] != a or a in ("IngestMerge", "IngestDrain")]
         ctx.rng.shuffle(ext)
@@ -514,6 +516,8 @@ def run(ctx):
         reps = [cfgs[(i + ctx.seed) % len(cfgs)]] if quick else [cfgs[(i + j * 3 + ctx.seed) % len(cfgs)] for j in range(3)]
         if quick and i < ncover:  # every layout at least once inline and once through the value log
             reps = [cfgs[(i + ctx.seed) % 2 + (0 if pid != "C08" else 0)], cfgs[(2 + (i + ctx.seed) % max(1, len(cfgs) - 2)) % len(cfgs)]]
+            if pid == "C08" and i % 3 == 0:   # hot/cold value-log buckets: keys change bucket after two writes
+                reps[0] = next(c for c in CFGS if c.get("hot"))
         for ci, c in enumerate(reps):
             bottom = (i + ci + ctx.seed) % 2 == 0
             vmap = VMAPS[(i + ctx.seed) % len(VMAPS)] if versioned else None
